@@ -347,6 +347,353 @@ theorem C17_xf_rerun_witness : ¬ RerunStatement Cfg.pinned := by
     { ins := [("item_0", .atom "1")], outs := [("list", Val.list [.atom "1"])] } (Val.list [.atom "1"]) rfl rfl
   simp [xfAgain, Cfg.pinned, Val.dict, Val.list] at this
 
+/-! ### the definition: inputs, output labels, class-level preview = instance IO -/
+
+/-- **one input per parameter, in order, with the parameter's default and annotation**: for every
+parameter list none of whose names is a keyword of `Node.__init__`, the class-level input preview exists
+and lists exactly the parameters, in order: label = name, hint = annotation (`None` ↦ `NoneType`, absent ↦
+no hint), default = default (absent ↦ `NOT_DATA`).  A reserved name refuses the definition. -/
+theorem C17_inputs (ps : List FParam) :
+    ((∀ p ∈ ps, initKeywords.contains p.name = false) →
+      ∃ pin, previewInputs ps = .ok pin ∧ pin.length = ps.length ∧
+        pin.map (·.label) = ps.map (·.name) ∧
+        pin.map (·.hint) = ps.map (fun p => p.ann.hint) ∧
+        pin.map (·.dflt) = ps.map (fun p => p.dflt.getD .nd)) ∧
+    (∀ p ∈ ps, initKeywords.contains p.name = true → previewInputs ps = .error .reservedName) ∧
+    (∀ pin, previewInputs ps = .ok pin → ∀ p ∈ ps, initKeywords.contains p.name = false) := by
+  refine ⟨?_, ?_, ?_⟩
+  · intro h
+    refine ⟨expectedIns ps, previewInputs_ok ps h, ?_, ?_, ?_, ?_⟩ <;>
+      simp [expectedIns, Function.comp_def]
+  · intro p hp hb
+    exact previewInputs_reserved ps p hp hb
+  · intro pin h
+    exact (previewInputs_inv ps pin h).2
+
+/-- **class-level preview = instance IO**: the channels `StaticNode._setup_node` creates carry, one for
+one and in order, the labels, hints and defaults of `preview_inputs()` / the labels and hints of
+`preview_outputs()`; an input starts at its default, an output at `NOT_DATA`. -/
+theorem C17_preview_is_instance (pin : List InPrev) (pout : List (String × Hint)) :
+    (setupIns pin).map (fun c => (c.label, c.hint, c.dflt)) = pin.map (fun p => (p.label, p.hint, p.dflt)) ∧
+    (setupIns pin).map (·.value) = pin.map (·.dflt) ∧
+    (setupOuts pout).map (fun c => (c.label, c.hint)) = pout ∧
+    (setupOuts pout).map (·.value) = pout.map (fun _ => Val.nd) ∧
+    (setupNode pin pout).ins = pin.map (fun p => (p.label, p.dflt)) ∧
+    (setupNode pin pout).outs = pout.map (fun o => (o.1, Val.nd)) := by
+  refine ⟨?_, ?_, ?_, ?_, ?_, ?_⟩
+  · simp [setupIns, Function.comp_def]
+  · simp [setupIns, Function.comp_def]
+  · simp [setupOuts, Function.comp_def]
+  · simp [setupOuts, Function.comp_def]
+  · simp [setupNode, chanPanel_setupIns]
+  · simp [setupNode, chanPanel_setupOuts]
+
+/-- the texts written in a return statement -/
+def written : RetExpr → List String
+  | .tuple es => es
+  | .single s => [s]
+
+/-- the return annotation fits `n` outputs (a tuple annotation must list `n` hints when `n > 1`) -/
+def HintsFit (ra : RetAnn) (n : Nat) : Prop := ∃ hs, outHints ra n = .ok hs
+
+/-- **labelled as declared**: distinct declared labels, as many as the values of the single return
+statement, become the output labels, in order (validation on or off); with validation switched off they
+are taken whatever the function returns. -/
+theorem C17_labels_declared (d : FnDef) (ls : List String) (hd : d.declared = some ls) (hne : ls ≠ [])
+    (hnd : ls.Nodup)
+    (hok : d.validate = true →
+      ∃ e, d.rets = [.value e] ∧ e ≠ .single "None" ∧ (written e).length = ls.length)
+    (hh : HintsFit d.retAnn ls.length) :
+    ∃ pout, previewOutputs d = .ok pout ∧ pout.map (·.1) = ls := by
+  obtain ⟨hs, hhs⟩ := hh
+  have hlen : hs.length = ls.length := outHints_length _ _ _ hhs (by
+    cases ls with
+    | nil => exact absurd rfl hne
+    | cons _ _ => simp)
+  have hval : (if d.validate then validateLabels d else Except.ok ()) = Except.ok () := by
+    cases hv : d.validate with
+    | false => simp
+    | true =>
+      obtain ⟨e, hr, hn, hl⟩ := hok hv
+      have hp : parseOutput d.rets = .ok (some (written e)) := by
+        rw [hr]
+        cases e with
+        | tuple es => rfl
+        | single s =>
+          have : s ≠ "None" := fun h => hn (by rw [h])
+          simp [parseOutput, written, this]
+      simp only [if_true, validateLabels, getOutputLabels, hd, (hasDup_false ls).mpr hnd, hp]
+      simp [hl]
+  have hdict : asDict' (zipLH ls hs) = zipLH ls hs :=
+    asDict'_nodup _ (by rw [zipLH_labels ls hs hlen]; exact hnd)
+  refine ⟨zipLH ls hs, ?_, zipLH_labels ls hs hlen⟩
+  unfold previewOutputs
+  rw [hval]
+  simp only [getOutputLabels, hd, Option.getD_some, hhs, hdict, zipLH_isEmpty ls hs hlen hne]
+  rfl
+
+/-- **labelled as written in the return statement**: without declared labels the outputs are labelled
+with the texts of the returned expressions, in order, provided these are distinct (validation refuses
+repeated texts, see `C17_labels_refused`; without validation they would collapse, python `dict`). -/
+theorem C17_labels_scraped (d : FnDef) (e : RetExpr) (hd : d.declared = none) (hr : d.rets = [.value e])
+    (hn : e ≠ .single "None") (hne : written e ≠ [])
+    (hnd : (written e).Nodup)
+    (hh : HintsFit d.retAnn (written e).length) :
+    ∃ pout, previewOutputs d = .ok pout ∧ pout.map (·.1) = written e := by
+  obtain ⟨hs, hhs⟩ := hh
+  have hlen : hs.length = (written e).length := outHints_length _ _ _ hhs (by
+    cases hw : written e with
+    | nil => exact absurd hw hne
+    | cons _ _ => simp)
+  have hp : parseOutput d.rets = .ok (some (written e)) := by
+    rw [hr]
+    cases e with
+    | tuple es => rfl
+    | single s =>
+      have : s ≠ "None" := fun h => hn (by rw [h])
+      simp [parseOutput, written, this]
+  have hval : (if d.validate then validateLabels d else Except.ok ()) = Except.ok () := by
+    cases hv : d.validate with
+    | false => simp
+    | true =>
+      simp only [if_true, validateLabels, getOutputLabels, hd, hp, (hasDup_false _).mpr hnd]
+      simp
+  have hdict : asDict' (zipLH (written e) hs) = zipLH (written e) hs :=
+    asDict'_nodup _ (by rw [zipLH_labels _ hs hlen]; exact hnd)
+  refine ⟨zipLH (written e) hs, ?_, zipLH_labels _ hs hlen⟩
+  unfold previewOutputs
+  rw [hval]
+  simp only [getOutputLabels, hd, hp, Option.getD_some, hhs, hdict, zipLH_isEmpty _ hs hlen hne]
+  rfl
+
+/-- a function that returns nothing (no `return`, a bare `return`, `return None`) has the single output
+`None`, hinted `NoneType`, whatever its return annotation -/
+theorem C17_labels_none (d : FnDef) (hd : d.declared = none)
+    (hr : d.rets = [] ∨ d.rets = [.bare] ∨ d.rets = [.value (.single "None")]) :
+    previewOutputs d = .ok [("None", some "builtins.NoneType")] := by
+  have hp : parseOutput d.rets = .ok none := by
+    rcases hr with h | h | h <;> rw [h] <;> simp [parseOutput]
+  have hval : (if d.validate then validateLabels d else Except.ok ()) = Except.ok () := by
+    cases hv : d.validate with
+    | false => simp
+    | true => simp [validateLabels, getOutputLabels, hd, hp]
+  unfold previewOutputs
+  rw [hval]
+  simp only [getOutputLabels, hd, hp, Option.getD_none, List.length_nil]
+  cases d.retAnn <;> simp [outHints, zipLH, asDict']
+
+/-- **count validation**: with validation on, a number of declared labels different from the number of
+returned values refuses the definition (no node class), as do repeated labels and a second `return`. -/
+theorem C17_labels_refused (d : FnDef) (hv : d.validate = true) :
+    (∀ ls e, d.declared = some ls → ls.Nodup → d.rets = [.value e] → e ≠ .single "None" →
+        (written e).length ≠ ls.length → previewOutputs d = .error .countMismatch) ∧
+    (∀ ls, d.declared = some ls → ¬ ls.Nodup → previewOutputs d = .error .degenerate) ∧
+    (∀ r1 r2 rest, d.rets = r1 :: r2 :: rest → d.declared = none → previewOutputs d = .error .multipleReturns) := by
+  refine ⟨?_, ?_, ?_⟩
+  · intro ls e hd hnd hr hn hl
+    have hp : parseOutput d.rets = .ok (some (written e)) := by
+      rw [hr]
+      cases e with
+      | tuple es => rfl
+      | single s =>
+        have : s ≠ "None" := fun h => hn (by rw [h])
+        simp [parseOutput, written, this]
+    unfold previewOutputs
+    simp only [hv, if_true, validateLabels, getOutputLabels, hd, (hasDup_false ls).mpr hnd, hp]
+    have : ¬ ls.length = (written e).length := fun h => hl h.symm
+    simp [this]
+  · intro ls hd hnd
+    have : hasDup ls = true := by
+      cases h : hasDup ls with
+      | true => rfl
+      | false => exact absurd ((hasDup_false ls).mp h) hnd
+    unfold previewOutputs
+    simp [hv, validateLabels, getOutputLabels, hd, this]
+  · intro r1 r2 rest hr hd
+    unfold previewOutputs
+    simp [hv, validateLabels, getOutputLabels, hd, hr, parseOutput]
+
+/-- **one output per returned value**: whenever the node class exists and the labels were validated, or
+scraped from distinct texts, a function returning `k ≥ 1` values has exactly `k` outputs -/
+theorem C17_output_count (d : FnDef) (pout : List (String × Hint)) (e : RetExpr)
+    (hr : d.rets = [.value e]) (hn : e ≠ .single "None") (hne : written e ≠ [])
+    (hv : d.validate = true ∨ (d.declared = none ∧ (written e).Nodup))
+    (h : previewOutputs d = .ok pout) : pout.length = (written e).length := by
+  have hp : parseOutput d.rets = .ok (some (written e)) := by
+    rw [hr]
+    cases e with
+    | tuple es => rfl
+    | single s =>
+      have : s ≠ "None" := fun h => hn (by rw [h])
+      simp [parseOutput, written, this]
+  have hpos : 1 ≤ (written e).length := by
+    cases hw : written e with
+    | nil => exact absurd hw hne
+    | cons _ _ => simp
+  -- the labels in force, and that they are distinct and as many as the returned values
+  have key : ∃ ls, getOutputLabels d = .ok (some ls) ∧ ls.Nodup ∧ ls.length = (written e).length := by
+    cases hd : d.declared with
+    | none =>
+      refine ⟨written e, by simp [getOutputLabels, hd, hp], ?_, rfl⟩
+      rcases hv with hv | ⟨_, hv⟩
+      · unfold previewOutputs at h
+        simp only [hv, if_true, validateLabels, getOutputLabels, hd, hp] at h
+        cases hdup : hasDup (written e) with
+        | false => exact (hasDup_false _).mp hdup
+        | true => simp [hdup] at h
+      · exact hv
+    | some ls =>
+      have hvt : d.validate = true := by
+        rcases hv with hv | ⟨hv, _⟩
+        · exact hv
+        · rw [hd] at hv; cases hv
+      unfold previewOutputs at h
+      simp only [hvt, if_true, validateLabels, getOutputLabels, hd, hp] at h
+      cases hdup : hasDup ls with
+      | true => simp [hdup] at h
+      | false =>
+        by_cases hl : ls.length = (written e).length
+        · exact ⟨ls, by simp [getOutputLabels, hd], (hasDup_false _).mp hdup, hl⟩
+        · simp [hdup, hl] at h
+  obtain ⟨ls, hg, hnd, hl⟩ := key
+  have hne' : ls ≠ [] := by
+    intro h0; rw [h0] at hl; simp at hl; omega
+  unfold previewOutputs at h
+  cases hval : (if d.validate then validateLabels d else Except.ok ()) with
+  | error x => rw [hval] at h; cases h
+  | ok u =>
+    rw [hval] at h
+    simp only [hg, Option.getD_some] at h
+    cases hh : outHints d.retAnn ls.length with
+    | error x => rw [hh] at h; cases h
+    | ok hs =>
+      rw [hh] at h
+      have hlen : hs.length = ls.length := outHints_length _ _ _ hh (by omega)
+      have hdict : asDict' (zipLH ls hs) = zipLH ls hs :=
+        asDict'_nodup _ (by rw [zipLH_labels ls hs hlen]; exact hnd)
+      simp only [hdict, zipLH_isEmpty _ hs hlen hne', Except.ok.injEq] at h
+      have := congrArg (fun l => (l.map (·.1)).length) h
+      simp only [Bool.false_eq_true, if_false, zipLH_labels _ hs hlen, List.length_map] at this
+      omega
+
+/-- **the whole wrap, end to end**: take any definition whose node class exists (`fnPreview` succeeds),
+make an instance from the class-level preview with any positional/keyword split, call it with any other
+split.  If Python's own call of the function with the merged arguments returns `r`, then the node call
+returns exactly `r` and stores it: on the single output as it is; or, when there are several outputs and
+`r` is a tuple of as many items, item by item in order under the previewed labels. -/
+theorem C17_fn_faithful (d : FnDef) (pin : List InPrev) (pout : List (String × Hint))
+    (hprev : fnPreview d = .ok (pin, pout)) (F : List Val → Val)
+    (a1 : List Val) (k1 : List (String × Val)) (a2 : List Val) (k2 : List (String × Val))
+    (hnd : (d.params.map (·.name)).Nodup) (hk1 : (k1.map (·.1)).Nodup) (hk2 : (k2.map (·.1)).Nodup)
+    (hs : DataSig d.sig) (hd1 : DataVals a1 k1) (hd2 : DataVals a2 k2)
+    (r : Val) (hr : pyCall2 d.sig F a1 k1 a2 k2 = .ok r) :
+    ∃ n1, construct (setupNode pin pout) a1 k1 = .ok n1 ∧
+      (∀ l h, pout = [(l, h)] →
+        ∃ n2, call F n1 a2 k2 = (n2, .ret r) ∧ n2.outs = [(l, r)]) ∧
+      (∀ rs, pout.length ≠ 1 → r = Val.tuple rs → rs.length = pout.length →
+        ∃ n2, call F n1 a2 k2 = (n2, .ret r) ∧ n2.outs = (pout.map (·.1)).zip rs) := by
+  have hpin : pin = expectedIns d.params := by
+    unfold fnPreview at hprev
+    cases hi : previewInputs d.params with
+    | error e => rw [hi] at hprev; cases hprev
+    | ok x =>
+      rw [hi] at hprev
+      cases ho : previewOutputs d with
+      | error e => rw [ho] at hprev; cases hprev
+      | ok y =>
+        rw [ho] at hprev
+        simp only [Except.ok.injEq, Prod.mk.injEq] at hprev
+        rw [← hprev.1]
+        exact (previewInputs_inv _ _ hi).1
+  subst hpin
+  have hnames : (d.sig.map (·.name)) = d.params.map (·.name) := by
+    simp [FnDef.sig, Function.comp_def]
+  obtain ⟨n1, n2, hc, hcall, houts⟩ :=
+    C17_run d.sig (pout.map (·.1)) F a1 k1 a2 k2 (by rw [hnames]; exact hnd) hk1 hk2 hs hd1 hd2 r hr
+  have hnode : setupNode (expectedIns d.params) pout = mkNode d.sig (pout.map (·.1)) :=
+    setupNode_eq_mkNode d.params pout
+  refine ⟨n1, by rw [hnode]; exact hc, ?_, ?_⟩
+  · intro l h hp
+    have ho : n2.outs = [(l, Val.nd)] := by rw [houts, hp]; rfl
+    refine ⟨{ n2 with outs := [(l, r)] }, ?_, rfl⟩
+    rw [hcall]
+    exact C17_outputs_single n2 l .nd r ho
+  · intro rs h1 hrt hl
+    have hlen : n2.outs.length = pout.length := by rw [houts]; simp
+    refine ⟨{ n2 with outs := (labels n2.outs).zip rs }, ?_, ?_⟩
+    · rw [hcall, hrt]
+      exact C17_outputs_multi n2 rs (by rw [hlen]; exact h1) (by rw [hlen]; exact hl)
+    · show (labels n2.outs).zip rs = _
+      rw [houts]
+      simp [labels, Function.comp_def]
+
+/-- the transformers' class-level previews: `n` inputs `item_0 …` / `row_0 …` in order (hinted nothing /
+`dict`), one output `list` / `df`; one input `list` and `n` outputs `item_0 …`; the dictionary node shows
+its specification; and their instances are the nodes the `C17_xf_*` theorems run -/
+theorem C17_xf_preview (n : Nat) (spec : List InPrev) :
+    ((listPreview n).1.map (·.label) = itemLabels "item_" n ∧ (listPreview n).1.length = n ∧
+      setupNode (listPreview n).1 (listPreview n).2 = inputsToListNode n) ∧
+    ((dfPreview n).1.map (·.label) = itemLabels "row_" n ∧ (dfPreview n).1.length = n ∧
+      setupNode (dfPreview n).1 (dfPreview n).2 = inputsToDataframeNode n) ∧
+    ((unpackPreview n).2.map (·.1) = itemLabels "item_" n ∧ (unpackPreview n).2.length = n ∧
+      setupNode (unpackPreview n).1 (unpackPreview n).2 = listToOutputsNode n) ∧
+    ((dictPreview spec).1 = spec ∧
+      setupNode (dictPreview spec).1 (dictPreview spec).2
+        = inputsToDictNode (spec.map fun p => { name := p.label, dflt := if p.dflt.isData then some p.dflt else none })) := by
+  refine ⟨⟨?_, ?_, ?_⟩, ⟨?_, ?_, ?_⟩, ⟨?_, ?_, ?_⟩, rfl, ?_⟩
+  · simp [listPreview, xfInPreview, Function.comp_def]
+  · simp [listPreview, xfInPreview, itemLabels]
+  · simp [listPreview, xfInPreview, setupNode, chanPanel_setupIns, chanPanel_setupOuts, inputsToListNode, mkNode,
+      noDefault, Function.comp_def]
+  · simp [dfPreview, xfInPreview, Function.comp_def]
+  · simp [dfPreview, xfInPreview, itemLabels]
+  · simp [dfPreview, xfInPreview, setupNode, chanPanel_setupIns, chanPanel_setupOuts, inputsToDataframeNode, mkNode,
+      noDefault, Function.comp_def]
+  · simp [unpackPreview, Function.comp_def]
+  · simp [unpackPreview, itemLabels]
+  · simp [unpackPreview, xfInPreview, setupNode, chanPanel_setupIns, chanPanel_setupOuts, listToOutputsNode, mkNode,
+      noDefault, Function.comp_def]
+  · simp only [dictPreview, setupNode, chanPanel_setupIns, chanPanel_setupOuts, inputsToDictNode, mkNode,
+      List.map_map, List.map_cons, List.map_nil]
+    congr 1
+    apply List.map_congr_left
+    intro p _
+    cases hv : p.dflt <;> simp [hv, Val.isData]
+
+/-- dataclass nodes: one input per field in order, hinted with the field's type; the class-level default
+is the field's plain default, a `default_factory` is applied on instances only (so the instance *values*
+are what Python's dataclass call fills in: `dcNode`) -/
+theorem C17_dc_preview (fs : List Field) (hs : List Hint) (hl : hs.length = fs.length) :
+    (dcInPreview fs hs).map (·.label) = fs.map (·.name) ∧
+    (dcInPreview fs hs).map (·.hint) = hs ∧
+    (dcInPreview fs hs).map (fun p => (p.label, p.dflt)) = dcPreview fs ∧
+    (dcNode fs).ins = (dcSig fs).map (fun p => (p.name, p.dflt.getD .nd)) := by
+  refine ⟨?_, ?_, ?_, ?_⟩
+  · induction fs generalizing hs with
+    | nil => cases hs <;> simp [dcInPreview]
+    | cons f fs ih =>
+      cases hs with
+      | nil => simp at hl
+      | cons x hs => simp [dcInPreview, ih hs (by simpa using hl)]
+  · induction fs generalizing hs with
+    | nil => cases hs with
+      | nil => simp [dcInPreview]
+      | cons _ _ => simp at hl
+    | cons f fs ih =>
+      cases hs with
+      | nil => simp at hl
+      | cons x hs => simp [dcInPreview, ih hs (by simpa using hl)]
+  · induction fs generalizing hs with
+    | nil => cases hs <;> simp [dcInPreview, dcPreview]
+    | cons f fs ih =>
+      cases hs with
+      | nil => simp at hl
+      | cons x hs =>
+        have := ih hs (by simpa using hl)
+        simp only [dcPreview] at this
+        simp [dcInPreview, dcPreview, this]
+  · exact dcNode_ins fs
+
 /-! ## Non-vacuity: concrete signatures, splits and bodies -/
 
 /-- `def f(a, b=7, c=None): return r0, r1` with free-term returns -/
@@ -374,6 +721,55 @@ example : (dfBuild [Val.dict [("a", .atom "1"), ("b", .atom "2")], Val.dict [("b
     = some (Val.df [("a", [.atom "1", .atom "3"]), ("b", [.atom "2", .atom "4"])]) := by rfl
 example : (unpackCall (listToOutputsNode 2) [Val.list [.atom "1", .atom "2", .atom "3"]] []).2 = .runError := by rfl
 
+/-! ### non-vacuity of the definition-layer theorems -/
+
+/-- `def f(a, b: int = 7, c: None = None) -> tuple[T, int]: r0 = T(0, a, b, c); return r0, b` -/
+def exDef : FnDef :=
+  { params := [⟨"a", .empty, none⟩, ⟨"b", .obj "builtins.int", some (.atom "i7")⟩, ⟨"c", .none_, some (.atom "None")⟩],
+    rets := [.value (.tuple ["r0", "b"])], declared := none, validate := true,
+    retAnn := .obj "tuple[T,builtins.int]" ["T", "builtins.int"] }
+
+example : fnPreview exDef = .ok
+    ([⟨"a", none, .nd⟩, ⟨"b", some "builtins.int", .atom "i7"⟩, ⟨"c", some "builtins.NoneType", .atom "None"⟩],
+     [("r0", some "T"), ("b", some "builtins.int")]) := by rfl
+/-- hypotheses of `C17_inputs` (1st part) and `C17_labels_scraped` hold for it -/
+example : ∀ p ∈ exDef.params, initKeywords.contains p.name = false := by decide
+example : (written (.tuple ["r0", "b"])).Nodup ∧ HintsFit exDef.retAnn 2 := ⟨by decide, ⟨_, rfl⟩⟩
+/-- a reserved parameter name refuses the definition (2nd part of `C17_inputs`) -/
+example : previewInputs [⟨"x", .empty, none⟩, ⟨"label", .empty, none⟩] = .error .reservedName := by rfl
+/-- `C17_labels_declared`: two declared labels for two returned values, also with validation off for one
+label on two values -/
+example : previewOutputs { exDef with declared := some ["u", "v"] } = .ok [("u", some "T"), ("v", some "builtins.int")] := by rfl
+example : previewOutputs { exDef with declared := some ["only"], validate := false, retAnn := .empty }
+    = .ok [("only", none)] := by rfl
+/-- without validation repeated labels collapse like a python `dict` (outside every theorem's hypotheses) -/
+example : previewOutputs { exDef with declared := some ["s", "s"], validate := false, retAnn := .empty }
+    = .ok [("s", none)] := by rfl
+/-- `C17_labels_none`, `C17_labels_refused` (all three refusals) -/
+example : previewOutputs { exDef with rets := [.bare], retAnn := .none_ } = .ok [("None", some "builtins.NoneType")] := by rfl
+example : previewOutputs { exDef with declared := some ["u"] } = .error .countMismatch := by rfl
+example : previewOutputs { exDef with declared := some ["u", "u"] } = .error .degenerate := by rfl
+example : previewOutputs { exDef with rets := [.value (.single "a"), .value (.single "b")] } = .error .multipleReturns := by rfl
+/-- scraped labels that repeat are refused by validation too (`return b, b`) -/
+example : previewOutputs { exDef with rets := [.value (.tuple ["b", "b"])] } = .error .degenerate := by rfl
+/-- a tuple annotation of the wrong length refuses the definition -/
+example : previewOutputs { exDef with retAnn := .obj "tuple[T]" ["T"] } = .error .hintCount := by rfl
+/-- `C17_fn_faithful` on it, computed by the model: construct with `('x', c=None)`, call with `(b=9)` -/
+example :
+    (match fnPreview exDef with
+     | .ok (pin, pout) =>
+       (match construct (setupNode pin pout) [.atom "sx"] [("c", .atom "None")] with
+        | .ok n1 => some (call exF n1 [] [("b", .atom "i9")])
+        | .error _ => none)
+     | .error _ => none)
+      = some ({ ins := [("a", .atom "sx"), ("b", .atom "i9"), ("c", .atom "None")],
+                outs := [("r0", .node "app0" [] [.atom "sx", .atom "i9", .atom "None"]),
+                         ("b", .node "app1" [] [.atom "sx", .atom "i9", .atom "None"])] },
+              .ret (exF [.atom "sx", .atom "i9", .atom "None"])) := by rfl
+example : (listPreview 2).1.map (·.label) = ["item_0", "item_1"] ∧ (unpackPreview 3).2.length = 3 := by decide
+example : (dcInPreview witnessFields [some "builtins.int", some "builtins.list"]).map (fun p => (p.label, p.dflt))
+    = [("x", .nd), ("z", .nd)] ∧ (dcNode witnessFields).ins = [("x", .nd), ("z", .atom "g()")] := ⟨rfl, rfl⟩
+
 end PwVerif.C17
 
 #print axioms PwVerif.C17.C17_bind
@@ -392,3 +788,13 @@ end PwVerif.C17
 #print axioms PwVerif.C17.C17_xf_dataclass_def_witness
 #print axioms PwVerif.C17.C17_xf_rerun_repaired
 #print axioms PwVerif.C17.C17_xf_rerun_witness
+#print axioms PwVerif.C17.C17_inputs
+#print axioms PwVerif.C17.C17_preview_is_instance
+#print axioms PwVerif.C17.C17_labels_declared
+#print axioms PwVerif.C17.C17_labels_scraped
+#print axioms PwVerif.C17.C17_labels_none
+#print axioms PwVerif.C17.C17_labels_refused
+#print axioms PwVerif.C17.C17_output_count
+#print axioms PwVerif.C17.C17_fn_faithful
+#print axioms PwVerif.C17.C17_xf_preview
+#print axioms PwVerif.C17.C17_dc_preview
